@@ -4,6 +4,7 @@ from __future__ import annotations
 import ast
 
 import z3
+from .slicing import fold as _fold
 
 from .source import strip_docstring, is_static, is_classmethod
 from .state import State
@@ -57,7 +58,7 @@ class CallMixin:
                         if not (isinstance(v, Ref) and s1.obj(v).kind == "dict"):
                             raise Unsupported("**kwargs over non-dict")
                         for ent in s1.obj(v).items:
-                            if not z3.is_true(z3.simplify(ent[1])):
+                            if not z3.is_true(_fold(ent[1])):
                                 raise Unsupported("**kwargs with optional key")
                             kwargs[ent[0].s] = ent[2]
                     else:
@@ -153,8 +154,9 @@ class CallMixin:
                 for s2, v in self.ev(node.body, s1.with_loc(loc)):
                     yield s2.with_loc(caller), v
             return
-        if self.mode == "bv" and qual is None and getattr(node, "name", None) in self.opaque_spec \
-                and f.module in self.spec_module_names:
+        if qual is None and f.module in self.spec_module_names and \
+                ((self.mode == "bv" and getattr(node, "name", None) in self.opaque_spec)
+                 or getattr(node, "name", None) in self.opaque_always):
             yield st, self.opaque_spec_call(st, node.name, args)
             return
         if qual is not None and qual in self.contracts and qual not in self.no_contract_for:
@@ -198,7 +200,8 @@ class CallMixin:
             if not is_term(a):
                 raise Unsupported(f"opaque spec function {name}: non-scalar argument")
             flat.append(a)
-        fn = self.get_uf("spec." + name, [x.sort() for x in flat], self.T.val(0).sort())
+        rng = z3.RealSort() if name in self.real_spec else self.T.val(0).sort()
+        fn = self.get_uf("spec." + name, [x.sort() for x in flat], rng)
         self.used_assumptions.add(f"spec function {name} is uninterpreted in codec mode (defined and used in arithmetic-mode obligations)")
         return fn(*flat)
 
